@@ -33,6 +33,7 @@ REQUIRED_REACH = ['C11.readable', 'C11.multiset', 'C11.no_composite', 'C11.idemp
                   'C11.library.acquisition', 'C11.library.stim']
 EXHAUSTIVE = {'quick': False, 'thorough': False}
 JOB_OPTS = {'quick': dict(max_paths=6000, max_seconds=600, twin_every=2), 'thorough': dict(max_paths=30000, max_seconds=2500, twin_every=5)}
+TRUNCATION_OK = {'quick': 4, 'thorough': 20}   # sampled tier: this many random jobs may exhaust their path/time budget (listed as truncated in the evidence)
 
 ALPHA = [['W', 0, 'ALL'], ['W', 1, 'ALL'], ['W', 0, 'MW'], ['G', 'Rx180', [0]], ['G', 'CPhase', [0, 1]], ['M', 1, 'a'], ['B', [0, 1]]]
 
